@@ -169,6 +169,25 @@ def _has_exit(stmts):
     return False
 
 
+def _is_generator(fnode):
+    for x in ast.walk(fnode):
+        if isinstance(x, (ast.Yield, ast.YieldFrom)):
+            p = getattr(x, "_parent", None)
+            while p is not None and not isinstance(p, (ast.FunctionDef, ast.Lambda)):
+                p = getattr(p, "_parent", None)
+            if p is fnode:
+                return True
+    return False
+
+
+def _yields_in(stmts):
+    for st in stmts:
+        for x in ast.walk(st):
+            if isinstance(x, ast.Yield):
+                return True
+    return False
+
+
 def _mutated_local(n):
     """name of the local container grown by an expression statement `xs.append(e)` (see Evaluator._local_mutation)"""
     if isinstance(n, ast.Call) and isinstance(n.func, ast.Attribute) and isinstance(n.func.value, ast.Name):
@@ -546,6 +565,11 @@ class Evaluator:
             elif isinstance(st, ast.Expr):
                 if isinstance(st.value, ast.Constant):
                     continue  # docstring
+                if isinstance(st.value, ast.Yield) and sc.lookup("__yielded__") is not None and st.value.value is not None:
+                    # inside an inlined generator function: the yielded values form the produced sequence
+                    y = self.ev(st.value.value, sc, mod)
+                    sc.vars["__yielded__"] = T("grow", st, mod, obj=sc.lookup("__yielded__"), val=y, how="append")
+                    continue
                 v = self.ev(st.value, sc, mod)
                 self.effects.append(("expr", v))
                 sc.effects.append(v)
@@ -593,6 +617,8 @@ class Evaluator:
                 for nm in self._names_mutated_by_calls(st.body, sc, mod):
                     if nm not in names:
                         names.append(nm)
+                if sc.lookup("__yielded__") is not None and _yields_in(st.body) and "__yielded__" not in names:
+                    names.append("__yielded__")
                 init = {nm: sc.lookup(nm) for nm in names}
                 # the iterable of a `for` is evaluated once, before the first iteration (pre-loop values);
                 # the test of a `while` is re-evaluated every iteration (loop-carried values)
@@ -623,6 +649,9 @@ class Evaluator:
                 r = self.run(list(st.body) + rest, sc, mod)
                 return r
             elif isinstance(st, ast.Try):
+                alt = _lookup_default_idiom(st)
+                if alt is not None:
+                    return self.run([alt] + rest, sc, mod)
                 r = self.run(list(st.body) + list(st.orelse) + list(st.finalbody) + rest, sc, mod)
                 return r
             elif isinstance(st, (ast.Pass, ast.Import, ast.ImportFrom, ast.Global, ast.Nonlocal, ast.Delete, ast.Break, ast.Continue)):
@@ -644,6 +673,24 @@ class Evaluator:
         if old is None:
             return
         sc.vars[name] = T("grow", n, mod, obj=old, val=v.args[0], how=how)
+
+    def _raising_helper(self, n, v):
+        """the inlined result of an expression-statement call to a repo helper whose own body raises on some path
+        (a guard function), or None"""
+        if not isinstance(n, ast.Call) or v.op != "call" or v.fn.op != "ref":
+            return None
+        r = v.fn.ref
+        node = getattr(r, "node", None)
+        if r.kind != "repo" or not isinstance(node, ast.FunctionDef) or node.decorator_list:
+            return None
+        if not any(isinstance(x, ast.Raise) for x in ast.walk(node)):
+            return None
+        res = self.inline(v)
+        if res is None or res.op == "unknown":
+            return None
+        if not any(t.op == "raise" for t in walk(res)):
+            return None
+        return res
 
     def _mutating_callee(self, n, sc, mod):
         """(closure, {caller name: parameter}) when the expression statement `f(a, b, ...)` calls an inlinable repo
@@ -891,11 +938,55 @@ class Evaluator:
         self._last_scope = sc
         if isinstance(fnode, ast.Lambda):
             return self.ev(fnode.body, sc, mod)
+        if _is_generator(fnode):
+            sc.vars["__yielded__"] = T("list", fnode, mod, elts=[])
+            self.run(fnode.body, sc, mod)
+            self._last_scope = sc
+            out = sc.vars.get("__yielded__")
+            if out is not None and out.op == "comp":
+                out = T("comp", out.node, out.mod, **{**out.f, "kind": "GeneratorExp"})
+            return out if out is not None else unknown("generator", fnode)
         r = self.run(fnode.body, sc, mod)
         self._last_scope = sc
         if r is None:
             r = const(None, fnode)
         return r
+
+
+def _lookup_default_idiom(st):
+    """try: X = D[K]          is        if K in D: X = D[K]
+       except KeyError: X = E           else: X = E
+    (single lookup assignment, single handler for KeyError/LookupError that only assigns the same name)"""
+    if len(st.body) != 1 or len(st.handlers) != 1 or st.orelse or st.finalbody:
+        return None
+    b, h = st.body[0], st.handlers[0]
+    if not (isinstance(b, ast.Assign) and len(b.targets) == 1 and isinstance(b.targets[0], ast.Name) and isinstance(b.value, ast.Subscript) and isinstance(b.value.value, ast.Name)):
+        return None
+    ht = h.type
+    if not (isinstance(ht, ast.Name) and ht.id in ("KeyError", "LookupError")):
+        return None
+    if len(h.body) != 1 or not (isinstance(h.body[0], ast.Assign) and len(h.body[0].targets) == 1 and isinstance(h.body[0].targets[0], ast.Name) and h.body[0].targets[0].id == b.targets[0].id):
+        return None
+    if any(isinstance(x, ast.Call) for x in ast.walk(b.value.slice)):
+        return None
+    test = ast.Compare(left=b.value.slice, ops=[ast.In()], comparators=[b.value.value])
+    new = ast.If(test=test, body=[b], orelse=[h.body[0]])
+    ast.copy_location(new, st)
+    ast.copy_location(test, st)
+    new._parent = getattr(st, "_parent", None)
+    return new
+
+
+def _graft(t, cont):
+    """replace every non-raising leaf of an if/seq tree by `cont` (the continuation of the calling block)"""
+    if t.op == "if":
+        return T("if", t.node, t.mod, cond=t.cond, then=_graft(t.then, cont), other=_graft(t.other, cont))
+    if t.op == "seq":
+        inner = _graft(t.value, cont)
+        return T("seq", t.node, t.mod, effects=t.effects, value=inner)
+    if t.op == "raise":
+        return t
+    return cont
 
 
 def _desugar_continue(stmts):
